@@ -21,6 +21,9 @@ type F uint64
 // Of converts a float64.
 func Of(v float64) F { return F(math.Float64bits(v)) }
 
+// V2 returns the raw bits.
+func (f F) V2() uint64 { return uint64(f) }
+
 // V returns the float64 value.
 func (f F) V() float64 { return math.Float64frombits(uint64(f)) }
 
@@ -908,4 +911,86 @@ func (g *G) Clone() *G {
 		panic(err)
 	}
 	return &out
+}
+
+// CoordSlots returns pointers to every non-nil coordinate below g (not
+// descending into collections' members unless deep is set).
+func (g *G) CoordSlots(deep bool) []*[]F {
+	var out []*[]F
+	one := func(x *G) {
+		if x.C0 != nil {
+			out = append(out, &x.C0)
+		}
+		for i := range x.C1 {
+			if x.C1[i] != nil {
+				out = append(out, &x.C1[i])
+			}
+		}
+		for i := range x.C2 {
+			for j := range x.C2[i] {
+				out = append(out, &x.C2[i][j])
+			}
+		}
+		for i := range x.C3 {
+			for j := range x.C3[i] {
+				for k := range x.C3[i][j] {
+					out = append(out, &x.C3[i][j][k])
+				}
+			}
+		}
+	}
+	if deep {
+		g.Walk(one)
+	} else {
+		one(g)
+	}
+	return out
+}
+
+// FromCoords rebuilds the model of a non-collection geometry from its Coords()
+// method (not from the flat arrays). An empty Point is returned without
+// calling Coords(), which panics by design.
+func FromCoords(t geom.T) (*G, error) {
+	g := &G{Kind: KindOf(t), Layout: int(t.Layout()), SRID: t.SRID()}
+	bits1 := func(cs []geom.Coord) [][]F {
+		out := make([][]F, len(cs))
+		for i, c := range cs {
+			if c != nil {
+				out[i] = Bits(c)
+			}
+		}
+		return out
+	}
+	bits2 := func(css [][]geom.Coord) [][][]F {
+		out := make([][][]F, len(css))
+		for i, cs := range css {
+			out[i] = bits1(cs)
+		}
+		return out
+	}
+	switch tt := t.(type) {
+	case *geom.Point:
+		if !tt.Empty() {
+			g.C0 = Bits(tt.Coords())
+		}
+	case *geom.LineString:
+		g.C1 = bits1(tt.Coords())
+	case *geom.LinearRing:
+		g.C1 = bits1(tt.Coords())
+	case *geom.MultiPoint:
+		g.C1 = bits1(tt.Coords())
+	case *geom.Polygon:
+		g.C2 = bits2(tt.Coords())
+	case *geom.MultiLineString:
+		g.C2 = bits2(tt.Coords())
+	case *geom.MultiPolygon:
+		css := tt.Coords()
+		g.C3 = make([][][][]F, len(css))
+		for i := range css {
+			g.C3[i] = bits2(css[i])
+		}
+	default:
+		return nil, fmt.Errorf("model.FromCoords: %T", t)
+	}
+	return g, nil
 }
